@@ -68,21 +68,24 @@ func updateTimeBounds(lo *storage.LookupOptions, cls *semantic.GraphClause) *sto
 func updateTimeBoundsForRow(lo *storage.LookupOptions, cls *semantic.GraphClause, r table.Row) (*storage.LookupOptions, error) {
 	lo = updateTimeBounds(lo, cls)
 	if cls.PLowerBoundAlias != "" {
-		v, ok := r[cls.PLowerBoundAlias]
-		if ok && v.T == nil {
-			return nil, fmt.Errorf("invalid time anchor value %v for bound %s", v, cls.PLowerBoundAlias)
-		}
-		if lo.LowerAnchor == nil || (lo.LowerAnchor != nil && v.T.After(*lo.LowerAnchor)) {
-			lo.LowerAnchor = v.T
+		// The row only restricts the bound if it has a value for the binding.
+		if v, ok := r[cls.PLowerBoundAlias]; ok && v != nil {
+			if v.T == nil {
+				return nil, fmt.Errorf("invalid time anchor value %v for bound %s", v, cls.PLowerBoundAlias)
+			}
+			if lo.LowerAnchor == nil || v.T.After(*lo.LowerAnchor) {
+				lo.LowerAnchor = v.T
+			}
 		}
 	}
 	if cls.PUpperBoundAlias != "" {
-		v, ok := r[cls.PUpperBoundAlias]
-		if ok && v.T == nil {
-			return nil, fmt.Errorf("invalid time anchor value %v for bound %s", v, cls.PUpperBoundAlias)
-		}
-		if lo.UpperAnchor == nil || (lo.UpperAnchor != nil && v.T.After(*lo.UpperAnchor)) {
-			lo.UpperAnchor = v.T
+		if v, ok := r[cls.PUpperBoundAlias]; ok && v != nil {
+			if v.T == nil {
+				return nil, fmt.Errorf("invalid time anchor value %v for bound %s", v, cls.PUpperBoundAlias)
+			}
+			if lo.UpperAnchor == nil || v.T.Before(*lo.UpperAnchor) {
+				lo.UpperAnchor = v.T
+			}
 		}
 	}
 	nlo := updateTimeBounds(lo, cls)
